@@ -467,6 +467,17 @@ func (x *Exec) appendBuiltin(st *State, fr *Frame, c *callCtx) {
 		x.finish(st, fr, c, VSlice{Nil: TFalse, Arr: obj, Len: IntLit(int64(len(all))), Typ: s0.Typ})
 		return
 	}
+	// commands appended to a slice of symbolic length are checked now (see batch.go)
+	if isCommandSlice(s0.Typ) && st.ghost != nil && st.ghost.db != nil && st.ghost.db.mode == "coroutine" {
+		for _, ev := range e1 {
+			if p, ok := x.force(st, ev).(VPtr); ok && c1 {
+				x.checkBatchCommand(st, p)
+			}
+		}
+		if !c1 {
+			x.notes["commands appended from a slice of symbolic length (variadic additionalCmds) are checked where the caller builds them; the closure is verified with that tail summarised by a rely step"] = true
+		}
+	}
 	// at least one abstract operand: the result is an abstract array that keeps
 	// the known cells of both operands.
 	elem := s0.Typ.Underlying().(*types.Slice).Elem()
@@ -502,6 +513,23 @@ func (x *Exec) appendBuiltin(st *State, fr *Frame, c *callCtx) {
 	addCells(s0, IntLit(0), e0, c0)
 	addCells(s1, s0.Len, e1, c1)
 	x.notes["append on a slice of symbolic length: elements beyond the tracked cells become unconstrained"] = true
+	if isCommandSlice(s0.Typ) {
+		na.CmdKinds = map[int64]bool{}
+		if s0.Arr >= 0 {
+			if abs, ok := st.heap[s0.Arr].(*VAbsArr); ok {
+				for k := range abs.CmdKinds {
+					na.CmdKinds[k] = true
+				}
+			}
+		}
+		for _, ev := range e1 {
+			if p, ok := x.force(st, ev).(VPtr); ok {
+				if k, ok := x.commandKind(st, p); ok {
+					na.CmdKinds[k] = true
+				}
+			}
+		}
+	}
 	obj := x.alloc(st, na)
 	nilT := TFalse
 	if l1, ok := isIntLit(s1.Len); ok && l1 == 0 {
